@@ -17,7 +17,7 @@ def ingest(src):
     try:
         wt = os.path.join(d, "repo")
         shutil.copytree("/repo", wt, ignore=shutil.ignore_patterns(".git", "__pycache__", "notebook", "docs"))
-        eq = re.sub(r"/tmp/agentsR/R\d", wt, open(os.path.join(src, "equiv.py")).read())
+        eq = re.sub(r"/tmp/agentsR\d*/R\d+", wt, open(os.path.join(src, "equiv.py")).read())
         os.makedirs(os.path.join(wt, "refactor_out", sid), exist_ok=True)
         ep = os.path.join(wt, "refactor_out", sid, "equiv.py")
         open(ep, "w").write(eq)
